@@ -89,5 +89,255 @@ theorem parseValue_print (st : Style) (v : ArgVal) (rest : List Tok)
 example : unescapeText (escText "a\\{b|c}\\\\x'y".toList) = "a\\{b|c}\\\\x'y".toList := by decide
 example : unescapeStr '"' (escStr '"' "say \"hi\" \\ 'x' \\\"".toList) = "say \"hi\" \\ 'x' \\\"".toList := by decide
 
+/-! ### raw text through the whole front end (lexer and parser) -/
+
+/-- a text the grammar can carry as ONE piece of raw text: no `%`, none of the white space the lexer skips -/
+def TextOk (s : List Char) : Prop := ∀ c ∈ s, c ≠ '%' ∧ isGlobalWs c = false
+
+/-- the TEXT token takes the whole printed text, whatever came before it -/
+theorem takeTextAux_escText : ∀ (s : List Char) (prev : Bool), TextOk s →
+    takeTextAux prev (escText s) = (escText s, []) := by
+  intro s
+  induction s with
+  | nil => intro prev _; simp [escText, takeTextAux]
+  | cons c t ih =>
+    intro prev hok
+    have hc := hok c (by simp)
+    have ht : TextOk t := fun x hx => hok x (by simp [hx])
+    have hsplit : escText (c :: t) = escTextChar c ++ escText t := by simp [escText]
+    rw [hsplit]
+    unfold escTextChar
+    by_cases hb : c = '\\'
+    · -- a backslash is written twice; neither copy stops the token
+      subst hb
+      simp only [if_true, List.cons_append, List.nil_append]
+      rw [takeTextAux]
+      simp only [show isBraceOrPipe '\\' = false by decide, Bool.false_eq_true, if_false,
+        show ¬ (('\\' : Char) = '%' ∨ isGlobalWs '\\' = true) by decide]
+      rw [takeTextAux]
+      simp only [show isBraceOrPipe '\\' = false by decide, Bool.false_eq_true, if_false,
+        show ¬ (('\\' : Char) = '%' ∨ isGlobalWs '\\' = true) by decide]
+      rw [ih _ ht]
+    · simp only [hb, if_false]
+      by_cases hbp : isBraceOrPipe c = true
+      · -- a brace or pipe is written after a backslash, which protects it
+        simp only [hbp, if_true, List.cons_append, List.nil_append]
+        rw [takeTextAux]
+        simp only [show isBraceOrPipe '\\' = false by decide, Bool.false_eq_true, if_false,
+          show ¬ (('\\' : Char) = '%' ∨ isGlobalWs '\\' = true) by decide]
+        rw [takeTextAux]
+        simp only [hbp, if_true, decide_true]
+        rw [ih _ ht]
+      · simp only [hbp, Bool.false_eq_true, if_false, List.cons_append, List.nil_append]
+        rw [takeTextAux]
+        simp only [hbp, Bool.false_eq_true, if_false]
+        rw [if_neg (by rintro (h | h); exact hc.1 h; rw [hc.2] at h; exact absurd h (by decide))]
+        rw [ih _ ht]
+
+theorem escText_ne_nil {s : List Char} (h : s ≠ []) : escText s ≠ [] := by
+  cases s with
+  | nil => exact absurd rfl h
+  | cons c t =>
+    simp only [escText, List.flatMap_cons]
+    unfold escTextChar
+    split
+    · simp
+    · split <;> simp
+
+/-- the first printed character starts a TEXT token -/
+theorem escText_head (c : Char) (t : List Char) (hc : c ≠ '%' ∧ isGlobalWs c = false) :
+    ∃ d rest, escText (c :: t) = d :: rest ∧ isGlobalWs d = false ∧ d ≠ '%' ∧ d ≠ '|' ∧ d ≠ '{' ∧ d ≠ '}' := by
+  have hsplit : escText (c :: t) = escTextChar c ++ escText t := by simp [escText]
+  rw [hsplit]
+  unfold escTextChar
+  by_cases hb : c = '\\'
+  · refine ⟨'\\', '\\' :: escText t, ?_, by decide, by decide, by decide, by decide, by decide⟩
+    simp [hb]
+  · by_cases hbp : isBraceOrPipe c = true
+    · refine ⟨'\\', c :: escText t, ?_, by decide, by decide, by decide, by decide, by decide⟩
+      simp [hb, hbp]
+    · refine ⟨c, escText t, ?_, hc.2, hc.1, ?_, ?_, ?_⟩
+      · simp [hb, hbp]
+      · intro h; apply hbp; simp [isBraceOrPipe, h]
+      · intro h; apply hbp; simp [isBraceOrPipe, h]
+      · intro h; apply hbp; simp [isBraceOrPipe, h]
+
+/-- **raw text, end to end**: any non-empty text without `%` and without TAB/LF/CR that does not end in a
+    backslash, written with the documented escapes, is lexed as one TEXT token and parsed back to exactly
+    that text — through the model of the whole front end (three-mode lexer, parser), not only `unescape` -/
+theorem parse_print_text (s : List Char) (hne : s ≠ []) (hok : TextOk s) (hlast : s.getLast? ≠ some '\\') :
+    lex (escText s) = some [.text (escText s)] ∧ parseTemplate (escText s) = some (.cons (.raw s) .nil) := by
+  have hlex : lex (escText s) = some [.text (escText s)] := by
+    cases s with
+    | nil => exact absurd rfl hne
+    | cons c t =>
+      obtain ⟨d, rest, hd, h1, h2, h3, h4, h5⟩ := escText_head c t (hok c (by simp))
+      have htake : takeText (escText (c :: t)) = (escText (c :: t), []) := takeTextAux_escText _ false hok
+      unfold lex
+      rw [hd] at htake ⊢
+      simp only [List.length_cons, lexLoop, List.cons_ne_nil, if_false, lexStep, h1, Bool.false_eq_true,
+        h2, h3, h4, h5, htake]
+      cases hl : rest.length with
+      | zero => simp [lexLoop]
+      | succ n => simp [lexLoop]
+  refine ⟨hlex, ?_⟩
+  unfold parseTemplate
+  rw [hlex]
+  simp only [parseTokens, List.length_cons, List.length_nil, parsePattern, parseElems]
+  simp [unescape_escText s hlast, Pat.ofList]
+
+/-- the hypotheses are satisfiable, metacharacters included -/
+example : TextOk "a{b}|c\\ d".toList ∧ "a{b}|c\\ d".toList.getLast? ≠ some '\\' := by
+  constructor
+  · intro c hc
+    simp only [String.toList] at hc
+    revert c
+    decide
+  · decide
+
+/-! ### a string argument through the whole front end -/
+
+/-- the closing quote of a printed literal is the first quote not protected by a backslash -/
+theorem findHardEnd_escStr (q : Char) (hq : q ≠ '\\') (rest : List Char) :
+    ∀ (s : List Char) (prev : Bool), (s = [] → prev = false) → s.getLast? ≠ some '\\' →
+      findHardEnd q prev (escStr q s ++ q :: rest) = some (escStr q s).length := by
+  intro s
+  induction s with
+  | nil =>
+    intro prev hp _
+    simp [escStr, findHardEnd, hp rfl]
+  | cons c t ih =>
+    intro prev _ hlast
+    have hsplit : escStr q (c :: t) = escStrChar q c ++ escStr q t := by simp [escStr]
+    have hlast_t : t ≠ [] → t.getLast? ≠ some '\\' := by
+      intro hne
+      rw [List.getLast?_cons_of_ne_nil hne] at hlast
+      exact hlast
+    rw [hsplit]
+    unfold escStrChar
+    by_cases hb : c = '\\'
+    · -- a backslash (written twice) cannot be the last character of the string
+      subst hb
+      have htne : t ≠ [] := by
+        intro h; subst h; simp at hlast
+      simp only [if_true, List.cons_append, List.nil_append, List.length_cons, List.length_append]
+      rw [findHardEnd]
+      simp only [show ¬ (('\\' : Char) = q ∧ prev = false) from fun h => hq h.1.symm, if_false]
+      rw [findHardEnd]
+      simp only [show ¬ (('\\' : Char) = q ∧ (decide (('\\' : Char) = '\\')) = false) from fun h => hq h.1.symm, if_false]
+      rw [ih _ (fun h => absurd h htne) (hlast_t htne)]
+      simp <;> omega
+    · simp only [hb, if_false]
+      by_cases hcq : c = q
+      · -- the quote mark, written after a backslash
+        subst hcq
+        simp only [if_true, List.cons_append, List.nil_append, List.length_cons, List.length_append]
+        rw [findHardEnd]
+        simp only [show ¬ (('\\' : Char) = c ∧ prev = false) from fun h => hb h.1.symm, if_false]
+        rw [findHardEnd]
+        simp only [show ¬ (c = c ∧ (decide (('\\' : Char) = '\\')) = false) by simp, if_false]
+        by_cases htne : t = []
+        · subst htne
+          simp [escStr, findHardEnd, hb]
+        · rw [ih _ (fun h => absurd h htne) (hlast_t htne)]
+          simp <;> omega
+      · simp only [hcq, if_false, List.cons_append, List.nil_append, List.length_cons, List.length_append]
+        rw [findHardEnd]
+        simp only [show ¬ (c = q ∧ prev = false) from fun h => hcq h.1, if_false]
+        by_cases htne : t = []
+        · subst htne
+          simp [escStr, findHardEnd, hb]
+        · rw [ih _ (fun h => absurd h htne) (hlast_t htne)]
+          simp
+
+/-- the STRING token of a printed literal is exactly the printed body, whatever follows -/
+theorem takeString_escStr (q : Char) (hq : q ≠ '\\') (s rest : List Char) (hlast : s.getLast? ≠ some '\\') :
+    takeString q (escStr q s ++ q :: rest) = some (escStr q s, rest) := by
+  unfold takeString
+  rw [findHardEnd_escStr q hq rest s false (fun _ => rfl) hlast]
+  simp
+
+/-- **a string argument, end to end**: `%T("…")` with any string that does not end in a backslash, written
+    with the documented escapes and either quote mark, is lexed and parsed back to a tag with exactly that
+    string as its only argument — through the model of the whole front end -/
+theorem parse_print_string_arg (q : Char) (hq : q = '\'' ∨ q = '"') (s : List Char)
+    (hlast : s.getLast? ≠ some '\\') :
+    parseTemplate ("%T(".toList ++ q :: escStr q s ++ [q, ')']) =
+      some (.cons (.tag none "T".toList [.str s] [] none) .nil) := by
+  have hqb : q ≠ '\\' := by rcases hq with rfl | rfl <;> decide
+  have htake := takeString_escStr q hqb s [')'] hlast
+  have hlex : lex ("%T(".toList ++ q :: escStr q s ++ [q, ')']) =
+      some [.tagStart, .tagId "T".toList, .argsStart, .str q (escStr q s), .argsEnd] := by
+    unfold lex
+    have hqc : (q = '\'' ∨ q = '"') := hq
+    have e : "%T(".toList ++ q :: escStr q s ++ [q, ')'] = '%' :: 'T' :: '(' :: q :: (escStr q s ++ q :: [')']) := by
+      simp
+    rw [e]
+    simp only [List.length_cons, lexLoop, List.cons_ne_nil, if_false, lexStep]
+    rcases hq with rfl | rfl
+    · simp [lexLoop, lexStep, isGlobalWs, isIdStart, isIdChar, List.span, List.span.loop, isDigitChar, htake]
+    · simp [lexLoop, lexStep, isGlobalWs, isIdStart, isIdChar, List.span, List.span.loop, isDigitChar, htake]
+  unfold parseTemplate
+  rw [hlex]
+  simp [parseTokens, parsePattern, parseElems, parseTag, parseTagBody, parseArgList, parseArgument, parseValue,
+    parseMoreArgs, splitArgs, Pat.ofList, unescapeStr_escStr]
+
+/-- the TEXT token of a printed text ends exactly where a pipe, a closing brace or a tag begins — provided the
+    text does not end in a backslash (which would protect that very character) -/
+theorem takeTextAux_escText_stop (stop : Char) (hstop : stop = '|' ∨ stop = '}' ∨ stop = '{' ∨ stop = '%') (rest : List Char) :
+    ∀ (s : List Char) (prev : Bool), TextOk s → (s = [] → prev = false) → s.getLast? ≠ some '\\' →
+      takeTextAux prev (escText s ++ stop :: rest) = (escText s, stop :: rest) := by
+  intro s
+  induction s with
+  | nil =>
+    intro prev _ hp _
+    rw [hp rfl]
+    simp only [escText, List.flatMap_nil, List.nil_append]
+    rw [takeTextAux]
+    rcases hstop with rfl | rfl | rfl | rfl <;> simp [isBraceOrPipe, isGlobalWs]
+  | cons c t ih =>
+    intro prev hok _ hlast
+    have hc := hok c (by simp)
+    have ht : TextOk t := fun x hx => hok x (by simp [hx])
+    have hsplit : escText (c :: t) = escTextChar c ++ escText t := by simp [escText]
+    have hlast_t : t ≠ [] → t.getLast? ≠ some '\\' := by
+      intro hne
+      rw [List.getLast?_cons_of_ne_nil hne] at hlast
+      exact hlast
+    rw [hsplit]
+    unfold escTextChar
+    by_cases hb : c = '\\'
+    · subst hb
+      have htne : t ≠ [] := by
+        intro h; subst h; simp at hlast
+      simp only [if_true, List.cons_append, List.nil_append]
+      rw [takeTextAux]
+      simp only [show isBraceOrPipe '\\' = false by decide, Bool.false_eq_true, if_false,
+        show ¬ (('\\' : Char) = '%' ∨ isGlobalWs '\\' = true) by decide]
+      rw [takeTextAux]
+      simp only [show isBraceOrPipe '\\' = false by decide, Bool.false_eq_true, if_false,
+        show ¬ (('\\' : Char) = '%' ∨ isGlobalWs '\\' = true) by decide]
+      rw [ih _ ht (fun h => absurd h htne) (hlast_t htne)]
+    · simp only [hb, if_false]
+      by_cases hbp : isBraceOrPipe c = true
+      · simp only [hbp, if_true, List.cons_append, List.nil_append]
+        rw [takeTextAux]
+        simp only [show isBraceOrPipe '\\' = false by decide, Bool.false_eq_true, if_false,
+          show ¬ (('\\' : Char) = '%' ∨ isGlobalWs '\\' = true) by decide]
+        rw [takeTextAux]
+        simp only [hbp, if_true, decide_true]
+        by_cases htne : t = []
+        · subst htne
+          rw [ih _ ht (fun _ => rfl) (by simp)]
+        · rw [ih _ ht (fun h => absurd h htne) (hlast_t htne)]
+      · simp only [hbp, Bool.false_eq_true, if_false, List.cons_append, List.nil_append]
+        rw [takeTextAux]
+        simp only [hbp, Bool.false_eq_true, if_false]
+        rw [if_neg (by rintro (h | h); exact hc.1 h; rw [hc.2] at h; exact absurd h (by decide))]
+        by_cases htne : t = []
+        · subst htne
+          rw [ih _ ht (fun _ => by simp [hb]) (by simp)]
+        · rw [ih _ ht (fun h => absurd h htne) (hlast_t htne)]
+
 end C10
 end Tempren
